@@ -268,8 +268,8 @@ func cmdCheck(args []string) {
 			again = append(again, o)
 		}
 	}
-	if len(again) > 0 && len(again) <= 24 {
-		d2 := NewDischarger(filepath.Join(*verif, "cache"), useCache, timeout*3)
+	if len(again) > 0 && len(again) <= 12 {
+		d2 := NewDischarger(filepath.Join(*verif, "cache"), useCache, timeout*2)
 		d2.RunAll(w, again, 4)
 		d2.Close()
 		d.total += d2.total
